@@ -15,6 +15,35 @@ partial def mapLines (h : IO.FS.Stream) (f : String → String) : IO Unit := do
     IO.println (f l)
     mapLines h f
 
+partial def readAll (h : IO.FS.Stream) (acc : Array String) : IO (Array String) := do
+  let line ← h.getLine
+  if line.isEmpty then return acc
+  readAll h (acc.push (line.trimAscii.toString))
+
+/-- `run` mode: stdin holds one or more programs separated by `=== <name>` lines; for each the model's
+    trace is printed after a line `=== <name>` -/
+def runPrograms (h : IO.FS.Stream) : IO Unit := do
+  let lines ← readAll h #[]
+  let mut cur : List String := []
+  let mut name : Option String := none
+  let mut started := false
+  let flush (name : Option String) (cur : List String) : IO Unit := do
+    match name with
+    | some n => IO.println n
+    | none => pure ()
+    for l in Sigc.Model.runProgram cur.reverse do
+      IO.println l
+  for l in lines do
+    if l.startsWith "===" then
+      if started then flush name cur
+      cur := []
+      name := some l
+      started := true
+    else
+      if !started && !l.isEmpty then started := true
+      cur := l :: cur
+  if started then flush name cur
+
 def main (args : List String) : IO UInt32 := do
   let stdin ← IO.getStdin
   match args with
@@ -22,6 +51,7 @@ def main (args : List String) : IO UInt32 := do
   | ["adapt"] => mapLines stdin Sigc.Adapt.processLine; return 0
   | ["visit"] => mapLines stdin Sigc.Visit.processLine; return 0
   | ["types"] => mapLines stdin Sigc.Types.processLine; return 0
+  | ["run"]   => runPrograms stdin; return 0
   | _ =>
     IO.eprintln "usage: sigc_model trk|adapt|visit|types|run  < cases"
     return 2
